@@ -637,3 +637,92 @@ def rule_G7(prog):
                        "Replace neighbour would swallow items that are equal on both sides" % (t.get("src", ""), _fmt_idx(idx or {})),
                        file=fn.file, line=t["line"])
     return r
+
+
+# ------------------------------------------------------------------ G8: grouping only cuts Equal ops
+def rule_G8(prog):
+    r = RuleResult("G8", "group_diff_ops passes changes through untouched: every DiffOp it constructs and every op field it "
+                         "writes in place belongs to an Equal op; what it pushes into a group is either such a freshly cut "
+                         "Equal piece or the iterated op itself; and every iteration of its loop over the ops pushes (no op is "
+                         "skipped)")
+    for fn in prog.find("common::group_diff_ops"):
+        m = fn.mir
+        r.instances += 1
+        problems = []
+        n_aggr = n_store = n_push = 0
+        for i, b in enumerate(m.blocks):
+            if b["cleanup"]:
+                continue
+            for s_ in b["stmts"]:
+                if s_["k"] != "assign":
+                    continue
+                rv = s_["rv"]
+                if rv["k"] == "aggregate" and rv.get("adt") == DIFFOP:
+                    n_aggr += 1
+                    if rv["variant"] != "Equal":
+                        problems.append("constructs DiffOp::%s (line %d)" % (rv["variant"], s_["line"]))
+                for place, is_write in ((s_["p"], True), (rv.get("p") if rv["k"] == "ref" and rv.get("mut") else None, True)):
+                    if not place:
+                        continue
+                    downs = [e["downcast"] for e in place["proj"] if isinstance(e, dict) and "downcast" in e]
+                    tys = m.local_ty_str(place["l"]) or ""
+                    if downs and ("DiffOp" in tys) and "deref" in place["proj"]:
+                        n_store += 1
+                        if any(d not in ("Equal", "Some") for d in downs):
+                            problems.append("writes a field of a %s op in place (line %d)" % ("/".join(downs), s_["line"]))
+        # pushes of single ops
+        push_blocks = []
+        for bb, t in m.calls():
+            c = m.callee(t) or {}
+            if not c.get("path", "").endswith("Vec::<T, A>::push") or len(t["args"]) != 2:
+                continue
+            a = t["args"][1]
+            ty = m.local_ty_str(a["p"]["l"]) if a.get("k") in ("copy", "move") else ""
+            if ty != DIFFOP:
+                continue
+            n_push += 1
+            push_blocks.append(bb)
+            term = m.resolve_operand(a)
+            ok = False
+            if isinstance(term, tuple) and term and term[0] == "aggregate" and term[1].endswith("DiffOp::Equal"):
+                ok = True
+            if isinstance(term, tuple) and term and term[0] == "local":
+                # the loop variable: bound from the Some payload of IntoIter::next, never reassigned
+                ds = m.defs().get(term[2], [])
+                if len(ds) == 1 and ds[0][2] == "assign":
+                    src = m.resolve_rvalue(ds[0][3])
+                    if isinstance(src, tuple) and src and src[0] == "field" and isinstance(src[1], tuple) and src[1][0] == "downcast":
+                        inner = src[1][1]
+                        e = m.expand(inner, depth=2) if isinstance(inner, tuple) else inner
+                        if isinstance(e, tuple) and e and e[0] == "call" and "Iterator>::next" in (e[1] + ">::next") or \
+                                (isinstance(e, tuple) and e and e[0] == "call" and e[1].endswith("::next")):
+                            ok = True
+            if not ok:
+                problems.append("pushes `%s` (line %d), which is neither the iterated op nor a freshly cut Equal" % (
+                    t.get("src", "?")[:60], t["line"]))
+        # every iteration pushes
+        loops = [(h, body) for h, body in m.loops() if any(b in body for b in push_blocks)]
+        if not loops:
+            problems.append("no loop over the ops that pushes into a group")
+        else:
+            h, body = max(loops, key=lambda x: len(x[1]))
+            backs = [a for (a, b) in m.back_edges() if b == h]
+            seen = set()
+            stack = [s2 for s2 in m.succs(h) if s2 in body]
+            escaped = False
+            while stack:
+                b = stack.pop()
+                if b in seen or b in push_blocks or m.blocks[b]["cleanup"] or b not in body:
+                    continue
+                seen.add(b)
+                if b in backs:
+                    escaped = True
+                    break
+                stack.extend(m.succs(b))
+            if escaped:
+                problems.append("an iteration of the loop over the ops reaches the next one without pushing anything")
+        r.ob(not problems, "group_diff_ops: %d DiffOp constructions, %d in-place writes, %d pushes: %s" % (
+            n_aggr, n_store, n_push, problems or "only Equal ops are cut, changes pass through"))
+        if problems:
+            r.find(fn.path, "grouping", "group_diff_ops: " + "; ".join(problems[:4]), file=fn.file, line=fn.line)
+    return r
